@@ -70,9 +70,9 @@ var RecForms = []RecForm{
 
 // PanicCase is one (go form, recover form) combination.
 type PanicCase struct {
-	N    int
-	Go   int
-	Rec  int
+	N   int
+	Go  int
+	Rec int
 }
 
 // RenderPanicProgram renders the cases into a program.
